@@ -33,6 +33,31 @@ seed("C12_m1", "C12", "SU2M.get_euler_angle wraps alpha, gamma into (-pi,pi]", "
 seed("C12_m2", "C12", "cached sympy CG helper drops the M argument", "a tuple with M != m1+m2",
      "missed at first (only M = m1+m2 enumerated); caught after adding off-diagonal-M tuples (exact value 0)", "check strengthened")
 
+seed("C04_m1", "C04", "Bprime_q2: falls back to 1 whenever q0^2 <= 0 (instead of when the polynomial ratio is <= 0)", "resonance with J >= 1 whose nominal mass lies beyond the kinematic limit of the Dalitz plot",
+     "missed at first (generator kept nominal masses inside the range, model used a clamped q0); caught after modelling the signed q0^2 continuation and forcing beyond-limit configurations (6 failures)", "model + generator extended")
+seed("C04_m2", "C04", "running-width L taken from an lru_cache keyed by decay NAME", "two models in one process with the same particle names and different resonance spin",
+     "caught by ./check C04 (several configs per process re-use the names R_BC/R_BD/R_CD with different J): 15 failures")
+seed("C09_m1", "C09", "trans_error_matrix uses |dy/dx|", "an upper-only bound (dy/dx < 0) AND a correlated parameter AND an observer of off-diagonal covariance",
+     "caught by ./check C09 (trans_error_matrix goals incl. upper bounds): 18 failures")
+seed("C09_m2", "C09", "FitFractions.init_res_table no longer resets the gradient of the total integral", "method='new' AND the same FitFractions object integrated a second time",
+     "missed at first; caught after adding a re-integration scenario (11 failures)", "check strengthened")
+seed("C08_m1", "C08", "standard_complex treats the head of a tie group as unconstrained", "radius-tied complex couplings with independent phases AND a fit ending with the shared radius negative",
+     "missed at first; caught after adding the constraint set 'tied_neg' (16 failures: min_nll != NLL(state))", "check strengthened")
+seed("C08_m2", "C08", "fit_minuit_v2 drops a limit whose only finite end is 0", "iminuit AND a one-sided range ending exactly at 0 that is active",
+     "missed at first; caught after adding the constraint set 'bound0' (phase range (-inf,0] with the data at +1.1): 2 failures", "check strengthened")
+seed("C10_m1", "C10", "mass_importances: running lower edge stops updating after step 1", ">= 5 bodies; only the distribution changes",
+     "caught by ./check C10 (weight layer vs model, n up to 6): 6 failures")
+seed("C10_m2", "C10", "get_mass_range index slip", "cal_max_weight AND n >= 4 AND a heavy third-from-last daughter",
+     "caught by ./check C10 (mass-range layer): 5 failures")
+seed("C11_m1", "C11", "cal_chain_boost: lab-frame momenta used below the top", "fully sequential 5-body cascade (4 levels) with the parent at rest",
+     "caught by ./check C11 (backward layers on 3-5 body topologies): 32 failures")
+seed("C11_m2", "C11", "create_rotate_p_decay: 'old axes' snapshot taken before the mother's axes are loaded", "a second daughter (or a back-tracked branch) whose own daughter decays again",
+     "caught by ./check C11 (forward layers): 194 failures")
+seed("C07_m1", "C07", "Model_cfit.nll_grad_hessian drops resolution_size", "model cfit AND resolution_size > 1 AND the Hessian entry point",
+     "missed (resolution_size > 1 was outside the check's scenarios); scenarios being added", "gap: see DESIGN section 12")
+seed("C07_m2", "C07", "grad_hessp_batch: second-order normalisation term written with -int_g^2 instead of int_h", "extended likelihood AND the Hessian-vector entry point",
+     "caught by ./check C07 (H.p layer for the extended model): 5 failures")
+
 if __name__ == "__main__":
     lines = ["# Seeded changes (confirmed in a scratch worktree: demo passes clean, fails with the change, pinned tests unchanged)", "",
              "| id | property | change | needs | detection |", "|---|---|---|---|---|"]
